@@ -21,6 +21,7 @@ import (
 	"github.com/oasisprotocol/curve25519-voi/primitives/ed25519/extra/ecvrf"
 	"github.com/oasisprotocol/curve25519-voi/primitives/sr25519"
 	"github.com/oasisprotocol/curve25519-voi/primitives/x25519"
+	"golang.org/x/crypto/sha3"
 	"pgregory.net/rapid"
 	h "verifh"
 )
@@ -75,6 +76,13 @@ func c08nonzero(b []byte) {
 }
 
 var c08sink int
+
+func boolInt(b bool) int {
+	if b {
+		return 1
+	}
+	return 0
+}
 
 var c08L = new(big.Int).Add(new(big.Int).Lsh(big.NewInt(1), 252), c08mustBig("27742317777372353535851937790883648493"))
 
@@ -140,6 +148,7 @@ func c08ops() map[string]zzcth.Op {
 	ops["ed25519.Sign/pure/hedged"] = signOp(pure, true, false)
 	ops["ed25519.Sign/ctx/hedged"] = signOp(ctx, true, false)
 	ops["ed25519.Sign/pure/fixed-public-half"] = signOp(pure, false, true)
+	ops["ed25519.Sign/ph/hedged"] = signOp(ph, true, false)
 	ops["ed25519.PrivateKey.Equal"] = zzcth.Op{SecretLen: 64, PubLen: 64, Prep: func(pub, sec []byte) func() {
 		return func() {
 			if ed25519.PrivateKey(sec).Equal(ed25519.PrivateKey(pub)) {
@@ -164,6 +173,10 @@ func c08ops() map[string]zzcth.Op {
 				switch kind {
 				case 0:
 					st = sc.NewTranscriptBytes(msg)
+				case 2:
+					xof := sha3.NewShake256()
+					_, _ = xof.Write(msg)
+					st = sc.NewTranscriptXOF(xof)
 				default:
 					hh := sha512.New()
 					hh.Write(msg)
@@ -178,6 +191,7 @@ func c08ops() map[string]zzcth.Op {
 	ops["sr25519.ExpandUniform+Sign/bytes"] = srOp((*sr25519.MiniSecretKey).ExpandUniform, 0)
 	ops["sr25519.ExpandEd25519+Sign/bytes"] = srOp((*sr25519.MiniSecretKey).ExpandEd25519, 0)
 	ops["sr25519.ExpandUniform+Sign/hash"] = srOp((*sr25519.MiniSecretKey).ExpandUniform, 1)
+	ops["sr25519.ExpandUniform+Sign/xof"] = srOp((*sr25519.MiniSecretKey).ExpandUniform, 2)
 	ops["sr25519.SecretKey.PublicKey"] = zzcth.Op{SecretLen: 32, PubLen: 0, Prep: func(pub, sec []byte) func() {
 		return func() {
 			msk, _ := sr25519.NewMiniSecretKeyFromBytes(sec)
@@ -341,6 +355,26 @@ func c08ops() map[string]zzcth.Op {
 			var sel curve.RistrettoPoint
 			sel.ConditionalSelect(a, b, int(sec[0]&1))
 			curve.NewRistrettoPoint().Add(a, b)
+			d := curve.NewRistrettoPoint().Sub(a, b)
+			d.Neg(d)
+			curve.NewRistrettoPoint().Sum([]*curve.RistrettoPoint{a, b, d})
+			c08sink += boolInt(d.IsIdentity())
+		}
+	}}
+	ops["curve.EdwardsPoint.Sum+IsIdentity(secret points)"] = zzcth.Op{SecretLen: 64, PubLen: 16, Fix: fix255, Prep: func(pub, sec []byte) func() {
+		q := c08point(pub)
+		return func() {
+			a := curve.NewEdwardsPoint().MulBasepoint(curve.ED25519_BASEPOINT_TABLE, c08sc(sec))
+			b := curve.NewEdwardsPoint().MulBasepoint(curve.ED25519_BASEPOINT_TABLE, c08sc(sec[32:]))
+			sum := curve.NewEdwardsPoint().Sum([]*curve.EdwardsPoint{a, b, q})
+			c08sink += boolInt(sum.IsIdentity())
+		}
+	}}
+	ops["curve.RistrettoPoint.SetRandom(secret stream)"] = zzcth.Op{SecretLen: 64, PubLen: 0, Prep: func(pub, sec []byte) func() {
+		return func() {
+			if _, err := curve.NewRistrettoPoint().SetRandom(&c08Reader{b: sec}); err != nil {
+				panic(err)
+			}
 		}
 	}}
 	ops["curve.RistrettoPoint.SetUniformBytes(secret)"] = zzcth.Op{SecretLen: 64, PubLen: 0, Prep: func(pub, sec []byte) func() {
